@@ -294,3 +294,63 @@ def schema_errors_first(check: Check, repo: Repo, rule: str = "SCHEMA-ERRORS-FIR
         ok = bad is None and ret_ok
         detail = "dominates all later work; true edge returns the errors" if ok else f"path avoiding the test: {cfg.describe_path(bad) if bad else '-'}; return ok: {ret_ok}"
     check.ob(rule, fn, "schema validation errors are returned before parsing/executing", ok, detail)
+
+
+def kind_attr(check: Check, repo: Repo, rule: str = "KIND-ATTR") -> None:
+    """After a kind check `is_K(x)` has *failed* for a name x, attributes of x are not read
+    unless a positive kind fact for x dominates the read (the repository's own idiom:
+    `getattr(x, "ast_node", None)`, `x.ast_node if is_named_type(x) else None`)."""
+    check.rule(
+        rule,
+        "in SchemaValidationContext, on every path from the false edge of a kind check is_K(x) "
+        "(x a local name, not rebound) an attribute read x.attr is dominated by a positive kind "
+        "fact about x (is_P(x) true / isinstance) - a value that failed the check may be any object, "
+        "e.g. a wrapping type without ast_node",
+    )
+    classes = ClassIndex(repo)
+    ctx = classes.get("type.validate", "SchemaValidationContext")
+    n = 0
+    for fn in ctx.methods().values():
+        cfg = CFG(fn)
+        flow: FactFlow | None = None
+        tests = [t for t in cfg.nodes if t.kind == "test" and isinstance(t.ast, ast.Call) and call_name(t.ast).startswith("is_")
+                 and len(t.ast.args) == 1 and isinstance(t.ast.args[0], ast.Name)]
+        for t in tests:
+            x = t.ast.args[0].id
+            starts = [m for m, l in cfg.succ[t] if l and l[0] == "cond" and l[2] is False]
+            rebinding = lambda m: m.ast is not None and m.kind in ("for", "stmt") and any(  # noqa: E731
+                isinstance(a, ast.Name) and a.id == x and isinstance(a.ctx, ast.Store) for a in ast.walk(m.ast))
+            reach = cfg.reachable(starts, follow=no_exc, avoid=rebinding)
+            reads = []
+            for m in reach:
+                if m.ast is None or m.kind in ("join", "finally", "def"):
+                    continue
+                scope = m.ast
+                if isinstance(scope, (ast.For, ast.AsyncFor)):
+                    scope = scope.iter
+                elif isinstance(scope, (ast.With, ast.AsyncWith)):
+                    continue
+                for a in ast.walk(scope):
+                    if isinstance(a, ast.Attribute) and isinstance(a.ctx, ast.Load) and isinstance(a.value, ast.Name) and a.value.id == x:
+                        reads.append(a)
+            bad = []
+            for a in reads:
+                flow = flow or FactFlow(CFG(fn))
+                facts = flow.facts_at(a)
+                guarded = any(
+                    f.kind == "cond" and f.pol and isinstance(f.expr, ast.Call) and call_name(f.expr) in ("isinstance",) + tuple(
+                        p for p in ("is_named_type", "is_object_type", "is_interface_type", "is_union_type", "is_enum_type",
+                                    "is_input_object_type", "is_scalar_type", "is_directive", "is_composite_type",
+                                    "is_abstract_type", "is_leaf_type"))
+                    and f.expr.args and unparse(f.expr.args[0]) == x
+                    for f in facts
+                )
+                # a different, positive test of the same predicate family that dominates is fine too;
+                # the failed test itself gives a negative fact only
+                if not guarded:
+                    bad.append(a)
+            n += 1
+            check.ob(rule, t.ast, f"failed {unparse(t.ast)} in {qualname_of(t.ast)}", not bad,
+                     f"{len(reads)} attribute read(s) of `{x}` after the failed check, all guarded" if not bad else
+                     f"`{unparse(bad[0])}` (line {bad[0].lineno}) is read although `{x}` failed {unparse(t.ast)} and may be any object")
+    check.floor(rule, 8, "kind checks on local names in SchemaValidationContext")
